@@ -44,8 +44,8 @@ func main() {
 	}
 	r := evidence.New("C18", "fault_enumeration")
 	r.Rule("seq: case = (generated docker config file: absent | absent directory | document with unknown top-level keys of every JSON type, credsStore/credHelpers, auths absent/null/with plain, unknown-field, legacy-field, legacy-URL-key and opaque entries; file mode; layout; config path a regular file or a symbolic link — relative in the same directory, absolute or relative into another directory, dangling) × history of 8–30 Put/Get/Delete/reopen steps over 5–9 address forms of 2–3 hosts with credentials having empty parts, colons, non-ASCII and JSON-hostile text, one step in eight a Put/Delete whose save is made to fail through the file system (config path is a directory | a parent component is a regular file; must return an error and change nothing), one case in five with a failed update of a stored address followed by a successful Put of another, one Put in six storing again exactly what Get currently answers, one case in five starting with Put(host, X) where only a legacy URL key holds X, followed by Delete of that key; after every step Get of every address, the parsed file, its mode and a freshly opened store are compared with the reference model. " +
-		"crash: case = scripted (14 templates: document, regular or symlinked config path, prefix operations, one Put/Delete); the operation is killed before each of its file-system-mutating system calls in turn (exhaustive per case) and the document read through the configured path compared with the complete old and new documents. " +
-		"conc: case = (document, 1–3 non-aliasing addresses, 4–16 goroutines × 2–6 operations with unique credentials); porcupine per address over the recorded history plus the final file; a reader polls the configured path (a third of the cases through a symbolic link). " +
+		"crash: case = scripted (14 templates: document, regular or symlinked config path, prefix operations, one Put/Delete); the operation is killed before each of its file-system-mutating system calls in turn (exhaustive per case) and the document read through the configured path compared with the complete old and new documents; then a fresh store continues in the crashed directory (stray temporary files stay) with Delete / Put / Delete, and after each the file must be exactly one JSON document (no trailing bytes) equal to the model. " +
+		"conc: case = (document, 1–3 non-aliasing addresses, 4–16 goroutines × 2–6 operations with unique credentials); porcupine per address over the recorded history plus the final file; Gets also of a never-stored address and of a bare host known only under its legacy URL key; a reader polls the configured path (a third of the cases through a symbolic link); a monitor declares conc:deadlock when no call starts or returns between two samples and a stop-the-world goroutine dump shows every client parked on the config lock. " +
 		"distinct = hash(phase, document shape, operation/address-form/credential-class sequence [, system-call sequence | observed interleaving]); " +
 		"non-trivial = seq: pre-existing document with ≥1 unknown top-level key and ≥2 auths entries and ≥1 effective Put and Delete; crash: ≥3 crash points, all enumerated; conc: ≥2 operations on one address overlapped in time, one of them a Put/Delete")
 	r.Assume("credentials and document strings are valid UTF-8 (JSON cannot carry other bytes)")
